@@ -12,11 +12,12 @@ Import ListNotations.
 Open Scope N_scope.
 
 (* contained: [dead_after m pre]: in [pre] a callback of m panicked and m was not (re)started
-   since.  A dispatched event that follows, unless it is a restart event of m (which exists only
-   if m itself had requested shutdow_and_restart before it panicked), holds no record of m: no
-   message handler, no wake-up, no task step, no send. *)
-Theorem C13_contained : forall sc m pre e post ev,
-  trace sc = pre ++ e :: post -> dead_after m pre = true -> starts m e = false -> e_kind e = KLoop ev ->
+   since.  A start-up stage or dispatched event that follows, unless it is a restart event of m (which
+   exists only if m itself had requested shutdow_and_restart before it panicked), holds no record of
+   m: no at_sim_start, no message handler, no wake-up, no task step, no send.  (Only the tear-down
+   sweep still calls at_sim_end on m.) *)
+Theorem C13_contained : forall sc m pre e post,
+  trace sc = pre ++ e :: post -> dead_after m pre = true -> starts m e = false -> is_end e = false ->
   forallb (fun i => negb (of_mod m i)) (e_items e) = true.
 Proof. exact contained. Qed.
 Print Assumptions C13_contained.
